@@ -613,7 +613,7 @@ fn run_case(c: &Value) -> Value {
             }
             // wall-clock budget per scenario (a tree whose synchronisation makes the schedule space much
             // larger than the pinned tree's must still end; the scenario is then reported as capped)
-            let per_case = std::time::Duration::from_secs(if THOROUGH.load(Ordering::Relaxed) { 600 } else { 25 });
+            let per_case = std::time::Duration::from_secs(if THOROUGH.load(Ordering::Relaxed) { 600 } else { 12 });
             let shard_deadline = SHARD_DEADLINE.get().copied();
             let mut deadline = std::time::Instant::now() + per_case;
             if let Some(sd) = shard_deadline {
